@@ -63,6 +63,13 @@ impl Catalog {
         Ok(id)
     }
 
+    pub fn restore_schema(&mut self, schema: Schema) {
+        if schema.id() >= self.next_schema_id {
+            self.next_schema_id = schema.id() + 1;
+        }
+        self.schemas.insert(schema.name().to_string(), schema);
+    }
+
     pub fn drop_schema(&mut self, name: &str) -> Result<()> {
         ensure!(
             name != "turdb_catalog",
